@@ -2,7 +2,7 @@
     Statements only; every proof is [exact] of a lemma of Init/*Proofs.v. *)
 From Coq Require Import ZArith List Bool.
 From MT Require Import Lib.Interleave Init.EnvModel Init.EnvProofs Init.CpuListModel Init.CpuListProofs
-     Init.InitProtoModel Init.InitProtoProofs Init.InitEpochProofs.
+     Init.InitProtoModel Init.InitProtoProofs Init.InitEpochProofs Init.InitTableModel Init.InitTableProofs.
 Import ListNotations.
 Local Open Scope Z_scope.
 
@@ -173,6 +173,21 @@ Print Assumptions C15_fini_on_worker0_partial.
 Theorem C15_test_then_set_refuted : exists sched, ts_really (run_ts sched (ts_init 2)) = 2%nat.
 Proof. exact test_then_set_refuted. Qed.
 Print Assumptions C15_test_then_set_refuted.
+
+(** ** implicit initialisation on first use, for the whole public API
+
+    The table ([funcs], [entries]) is regenerated from the current sources on every run; the generated
+    file build/C15/gen/InitTableCheck.v closes [init_table_ok known_unprotected funcs entries fuel = true] by
+    vm_compute and instantiates this theorem (C15_init_table_current, C15_first_use_initialises).
+    Read with C15_init_once: an ensure-init call returns only after the real initialisation completed. *)
+Theorem C15_init_table_sound : forall exempt funcs entries fuel,
+  init_table_ok exempt funcs entries fuel = true ->
+  forall e, In e entries -> e_first e = true -> mem (e_name e) exempt = false ->
+  exists body, lookup funcs (e_name e) = Some body /\
+               (forall o, exec funcs body o -> o <> OBad) /\
+               (classify funcs fuel (e_name e) = Safe true -> forall o, exec funcs body o -> o = OInit).
+Proof. exact init_table_sound. Qed.
+Print Assumptions C15_init_table_sound.
 
 (** ** non-vacuity *)
 Example C15_env_example :
